@@ -15,37 +15,13 @@ def keyed(t, s):
     return isinstance(k, tuple) and k[0] == "aggr" and k[2] == "Some"
 
 def packet_kind_edges(t, f, dec):
-    """edges of switches on the discriminant of the packet returned by decode site `dec`: returns (auth_edges, unauth_edges); variant 0 = ConnectionRequest"""
-    me = norm(dec.fn.call_origin(dec.node))
+    """edges deciding the kind of the packet returned by decode site `dec`: returns (auth_edges, unauth_edges). An edge is authenticated when the
+    unauthenticated kind (ConnectionRequest, which carries no tag) is excluded on it."""
     auth, unauth = [], []
-    for br in t.branches(f):
-        if br["kind"] != "discr": continue
-        on = norm(br["on"])
-        # the packet is field 1 of the Ok tuple (through Try::branch -> Continue.0 or a direct match Ok.0)
-        txt = fmt(br["on"])
-        if not contains(on, lambda x: x == me): continue
-        if not re.search(r"as (Continue|Ok)\.0\.1$", txt): continue
-        listed = set(br["targets"])
-        for v, tgt in br["targets"].items():
-            (unauth if v == 0 else auth).append((br["bb"], tgt))
-        (auth if 0 in listed else unauth).append((br["bb"], br["otherwise"]))
-    # matches!(packet, ..) materialised into a bool: `_x = const c` in blocks behind kind edges, later `switchInt(_x)`
-    for br in t.branches(f):
-        if br["kind"] != "bool": continue
-        raw = br["raw"]
-        if not (isinstance(raw, tuple) and raw[0] == "phi" and all(isinstance(x, tuple) and x[0] == "const" for x in raw[2])): continue
-        defs = f.defs().get(raw[1], [])
-        by_val = {}
-        for bb_d, _, d in defs:
-            if d["k"] == "assign" and d["rv"]["k"] == "use" and d["rv"]["op"]["k"] == "const":
-                by_val.setdefault(d["rv"]["op"]["val"], []).append(bb_d)
-        for val, blocks in by_val.items():
-            is_auth = all(any(f.edge_dominates(e[0], e[1], b_) for e in auth) for b_ in blocks)
-            is_unauth = all(any(f.edge_dominates(e[0], e[1], b_) for e in unauth) for b_ in blocks)
-            edge = br["t_edge"] if val == 1 else br["f_edge"]
-            if is_auth: auth.append(edge)
-            elif is_unauth: unauth.append(edge)
+    for e, vs in packet_variant_edges(t, f, dec):
+        (unauth if "ConnectionRequest" in vs else auth).append(e)
     return auth, unauth
+
 
 def reachable_avoiding(f, start, avoid_edges):
     seen, st = set(), [start]
@@ -98,11 +74,12 @@ def packet_variant_edges(t, f, dec):
     for br in t.branches(f):
         if br["kind"] != "discr": continue
         if not contains(norm(br["on"]), lambda x: x == me): continue
-        if not re.search(r"as (Continue|Ok)\.0\.1$", fmt(br["on"])): continue
-        listed = set()
+        if not re.search(r"as (Continue|Ok|Some)\.0(\.1)?$", fmt(br["on"])): continue
+        listed, by_tgt = set(), {}
         for v, tgt in br["targets"].items():
-            out.append(((br["bb"], tgt), {names.get(v)})); listed.add(names.get(v))
-        out.append(((br["bb"], br["otherwise"]), allv - listed))
+            by_tgt.setdefault(tgt, set()).add(names.get(v)); listed.add(names.get(v))      # an or-pattern sends several variants to one block
+        by_tgt.setdefault(br["otherwise"], set()).update(allv - listed)
+        for tgt, vs_ in by_tgt.items(): out.append(((br["bb"], tgt), vs_))
     base = list(out)
     for br in t.branches(f):
         if br["kind"] != "bool": continue
@@ -146,3 +123,53 @@ def replay_protected_kinds(t):
                 if leads_true(tgt): covered.add(names.get(v))
             if leads_true(br["otherwise"]): covered |= {n for v, n in names.items() if v not in br["targets"]}
     return covered
+
+
+def enum_variant_edges(t, f, on_pred, adt):
+    """generalisation of packet_variant_edges: (edge, set of variant names of `adt` possible on that edge) for switches on the discriminant of a
+    value selected by on_pred(origin), including `matches!(..)` booleans materialised behind such switches"""
+    names = t.variants_of(adt)
+    allv = set(names.values())
+    out = []
+    for br in t.branches(f):
+        if br["kind"] != "discr" or not on_pred(br["on"]): continue
+        listed, by_tgt = set(), {}
+        for v, tgt in br["targets"].items():
+            by_tgt.setdefault(tgt, set()).add(names.get(v)); listed.add(names.get(v))      # an or-pattern sends several variants to one block
+        by_tgt.setdefault(br["otherwise"], set()).update(allv - listed)
+        for tgt, vs_ in by_tgt.items(): out.append(((br["bb"], tgt), vs_))
+    # `value == Enum::Variant` / `!=` (derived PartialEq on an enum with a unit variant on the other side)
+    for br in t.branches(f):
+        if br["kind"] == "bool" and br["cond"][0] == "cmp" and br["cond"][1] in ("Eq", "Ne"):
+            l_, r_ = br["cond"][2], br["cond"][3]
+            for a_, b_ in ((l_, r_), (r_, l_)):
+                bb_ = strip(b_)
+                if on_pred(a_) and isinstance(bb_, tuple) and bb_[0] == "aggr" and bb_[2] in allv:
+                    eq_e, ne_e = (br["t_edge"], br["f_edge"]) if br["cond"][1] == "Eq" else (br["f_edge"], br["t_edge"])
+                    out.append((eq_e, {bb_[2]})); out.append((ne_e, allv - {bb_[2]}))
+    base = list(out)
+    for br in t.branches(f):
+        if br["kind"] != "bool": continue
+        raw = br["raw"]
+        if not (isinstance(raw, tuple) and raw[0] == "phi" and all(isinstance(x, tuple) and x[0] == "const" for x in raw[2])): continue
+        by_val = {}
+        for bb_d, _, d in f.defs().get(raw[1], []):
+            if d["k"] == "assign" and d["rv"]["k"] == "use" and d["rv"]["op"]["k"] == "const": by_val.setdefault(d["rv"]["op"]["val"], []).append(bb_d)
+        for val, blocks in by_val.items():
+            vs, known = set(), True
+            for b_ in blocks:
+                doms = [s_ for e, s_ in base if f.edge_dominates(e[0], e[1], b_)]
+                if not doms: known = False; break
+                cur = set(allv)
+                for s_ in doms: cur &= s_
+                vs |= cur
+            if known: out.append((br["t_edge"] if val == 1 else br["f_edge"], vs))
+    return out, allv
+
+
+def enum_variants_at(t, f, on_pred, adt, bb):
+    edges, allv = enum_variant_edges(t, f, on_pred, adt)
+    cur = set(allv)
+    for e, vs in edges:
+        if f.edge_dominates(e[0], e[1], bb): cur &= vs
+    return cur
